@@ -301,7 +301,7 @@ Proof. intros H. destruct ph; np_solve H. Qed.
 Lemma np_advance ph ph' : next_phase ph MAdvance = Some ph' -> ph = PLogged true /\ ph' = PAdvanced.
 Proof. intros H. destruct ph; np_solve H. Qed.
 Lemma np_unlock ph ph' : next_phase ph MUnlock = Some ph' ->
-  ph' = PIdle /\ (ph = PLocked \/ ph = PAdvanced \/ exists k, ph = PChild k true true).
+  ph' = PIdle /\ (ph = PLocked \/ ph = PChosen \/ ph = PAlloc \/ ph = PAdvanced \/ exists k, ph = PChild k true true).
 Proof. intros H. destruct ph; np_solve H. Qed.
 Lemma np_alloc ph ph' : next_phase ph MAlloc = Some ph' -> ph = PLocked /\ ph' = PAlloc.
 Proof. intros H. destruct ph; np_solve H. Qed.
@@ -626,8 +626,8 @@ Proof.
     + intros c'. unfold busy_on. rewrite Hph, Ec. congruence.
   - (* MUnlock *)
     destruct (np_unlock _ _ Hnp) as [Hph' Hcases].
-    assert (Hh : holds (p_ph p) = true) by (destruct Hcases as [E|[E|[k E]]]; rewrite E; reflexivity).
-    assert (Hnb : forall c, busy_on p c -> False) by (intros c; unfold busy_on; destruct Hcases as [E|[E|[k E]]]; rewrite E; tauto).
+    assert (Hh : holds (p_ph p) = true) by (destruct Hcases as [E|[E|[E|[E|[k E]]]]]; rewrite E; reflexivity).
+    assert (Hnb : forall c, busy_on p c -> False) by (intros c; unfold busy_on; destruct Hcases as [E|[E|[E|[E|[k E]]]]]; rewrite E; tauto).
     match goal with |- Inv ?s => apply (holder_quiet_step st a p _ r ph' Iv Hp Hr Hnp Hwr s (pop p MUnlock r (p_cid p) None None (p_child p) (p_cnt p)) Hh) end; try reflexivity.
     + proj. rewrite (phase_after_eq _ _ _ Hnp), Hph'. cbn [holds]. rewrite (Hmu Hh). apply release_self.
     + proj. rewrite (phase_after_eq _ _ _ Hnp). exact Hwr.
